@@ -1795,6 +1795,21 @@ func (db *DB) dropAll() (func(), error) {
 	if err != nil {
 		return f, err
 	}
+	// Block all foreign interactions with memory tables.
+	db.lock.Lock()
+	defer db.lock.Unlock()
+
+	// Move what is still in the active memtable into a table (as DropPrefix does). From here on
+	// all data lives in tables, so the single MANIFEST change set written by dropTree is the
+	// atomic point of the drop: a crash before it recovers the complete pre-drop state, a
+	// crash after it an empty DB. Removing the memtable un-flushed (below) would otherwise let
+	// a crash bring back older versions from the tables.
+	if !db.mt.sl.Empty() {
+		if err := db.handleMemTableFlush(db.mt, nil); err != nil {
+			return f, err
+		}
+	}
+
 	// prepareToDrop will stop all the incoming write and flushes any pending memtables.
 	// Before we drop, we'll stop the compaction because anyways all the data are going to
 	// be deleted.
@@ -1803,9 +1818,6 @@ func (db *DB) dropAll() (func(), error) {
 		db.startCompactions()
 		f()
 	}
-	// Block all foreign interactions with memory tables.
-	db.lock.Lock()
-	defer db.lock.Unlock()
 
 	// Remove inmemory tables. Calling DecrRef for safety. Not sure if they're absolutely needed.
 	db.mt.DecrRef()
